@@ -425,6 +425,9 @@ pub fn run(ctx: &mut Ctx) {
         "A step.\n\n> A paragraph with @ and # and ~ in it.\n\n= A section = with @ stray\n\nLast @salt{}.", "tab\there @a{1}\tthere", "a  b   c @a{} d",
         // text values with more than one dash (dates, codes) are no `a-b` range; recipe references are core syntax
         "Open the @wine{2015-10-03} and add @eggs{1-2-3}.", "Use #tin{20-25-cm} and @x{1 - 2 - handfuls} or @y{1/2-1-2%kg}.",
+        // a locked text value with blanks after the `=`; a brace-less component directly followed by `|word`
+        "Season with @salt{= to taste} and @pepper{=  a pinch} or @x{=[- c -] some}.",
+        "Deglaze with @wine|vino and scrape the #pan|sarten well, then @salt| x and @oil|.",
         // a dash with a number on one side only is text, not half a range
         "Chill the @stock{-4%°C} and set the #dial{-2}, add @x{2-} @y{- 3} and @z{7 -%kg}.",
         "Serve with @./sauces/Hollandaise{150%g} and @../basics/rice{} or @.\\local\\stock{1%l}.", "Top with @./Pesto{} and more @./Pesto{2%tbsp}.",
